@@ -348,7 +348,8 @@ def run_c16(pid, only_cases=None):
     outcomes = hs_execute(drv, material, cases, wd, singles)
     log("net hs: executed %d variants on the real transport (%d one per process)" % (len(outcomes), len(singles)))
     stats, _ = hs_validate(pid, cases, outcomes, wd, verdict, consts)
-    nself = hs_selftest(pid, cases, outcomes, wd, consts) if only_cases is None else 0
+    # the self-test needs an accepted baseline; a run that found violations reports them and nothing else
+    nself = hs_selftest(pid, cases, outcomes, wd, consts) if only_cases is None and not verdict.violations else 0
     log("net hs: %d validated, attributed in %d, model accepts %d, crashed %d, drift %d" % (
         stats["validated"], stats["attributed"], stats["accepted_model"], stats["crashed"], stats["drift"]))
     for k, v in sorted(stats["drift_kinds"].items()):
@@ -749,7 +750,8 @@ def run_c17(pid, only=None):
                               "monitor %s is false on the real transport in scenario %d (fault %s, victim %d%s): %s" % (
                                   o["mon"], sid, s["fault"], s["victim"], ", flood" if s["flood"] else "", o["detail"]),
                               dict(property=pid, kind="fr", monitor=o["mon"], scenario=s, real_trace=fr_lines(s, traces[sid])[:3000]))
-    nself = fr_selftest(pid, scs, traces, wd) if only is None else 0
+    clean = [s for s in scs if s["id"] not in viols and not ends[s["id"]]["drift"] and ends[s["id"]]["complete"]]
+    nself = fr_selftest(pid, clean, traces, wd) if only is None and not verdict.violations else 0
     for k, v in sorted(drift_kinds.items()):
         print("DRIFT property=%s count=%d kind=%s" % (pid, v, k))
     rc = verdict.finish()
